@@ -332,4 +332,20 @@ example : same (Spec.parseInt (bytes "0x8000000000000401") .undef) (fv 0x43e0000
 example : same (parseInt (bytes "-0") .undef) zero = true := by decide +kernel
 example : same (Spec.parseInt (bytes "-0") .undef) negZero = true := by decide +kernel
 
+/-- Dev lit_hex_big / lit_octal_big: numeric literals of 2^63 and more -/
+example : (literalValue (bytes "0x8000000000000401")).map encode = some 0x43e0000000000000 := by decide +kernel
+example : (Spec.literalValue (bytes "0x8000000000000401")).map encode = some 0x43e0000000000001 := by decide +kernel
+example : (literalValue (bytes "01000000000000000000000")).map encode = some 0x444b1ae4d6e2ef50 := by decide +kernel   -- 1e21
+example : (Spec.literalValue (bytes "01000000000000000000000")).map encode = some 0x43e0000000000000 := by decide +kernel  -- 2^63
+example : (literalValue (bytes "1.5e3")).map encode = (Spec.literalValue (bytes "1.5e3")).map encode := by decide +kernel
+example : literalValue (bytes "09") = none ∧ Spec.literalValue (bytes "09") = none := by decide +kernel
+
+/-- Dev int_kind_tostring: String(9007199254740993) with an int64-kinded value -/
+example : formatInt 9007199254740993 10 = bytes "9007199254740993" := by decide +kernel
+example : Spec.toStringNum (ofInt 9007199254740993) = bytes "9007199254740992" := by decide +kernel
+
+/-- round trip: Number(String(x)) on the model for a few values, including the threshold region -/
+example : same (stringToNumber (numToString L0 (fv 0x444b1ae4d6e2ef4f) (fv 0x4035000000000000))) (fv 0x444b1ae4d6e2ef4f) = true := by decide +kernel
+example : same (stringToNumber (Spec.toStringNum (fv 0x0000000000000001))) (fv 0x0000000000000001) = true := by decide +kernel
+
 end OttoVerif.C06.Thm
